@@ -221,6 +221,27 @@ _AS_BUILT['C07'] = ('; AUDIT-ON-RESET-STATE dominance rule for the incremental p
 _AS_BUILT['C11'] = ('; PRUNE-AGAINST-NEW-TYPES order rule; STRUCTURE-GUARD dominance rule for E()/T()/B() in the model layer',
          ' As built: r9 value sources, r10 structure data is pruned after the schema change that alters typifications - also for an erasure (found: Erase pruned only before; repaired), r11 STRUCTURE-GUARD: every E()/T()/B() access in the model layer is dominated by a test of the structure of that very object (found: data and a changed typification walked in parallel; repaired).',
          'Does not decide that recalculated values are equal to fresh ones (value-level).')
+_ROUND4 = {
+ 'C01': ' r8 also evaluates EvaluateFilterComplex (one parameter, arguments of several elements) against the projection definition.',
+ 'C03': ' r10 REPORT-FAITHFUL: the text in which a typification is reported (EchelonTuple/EchelonBool::ToString interpreted on every typification up to depth three) is the conventional notation, hence injective.',
+ 'C04': ' r6 OWN-LOG also reports errors of a nested analyser that are gathered in a local and then handed to the reporter of the caller.',
+ 'C05': ' r6 also requires that ConvertTo owns no mutable static (the evaluation starts every call from fresh locals).',
+ 'C07': ' r3 also inventories the sorting calls: none is ordered by graph reachability (a partial order is not a strict weak ordering).',
+ 'C08': ' r2 all-tokens: TranslateRS interpreted over scripted token streams with every token kind between two occurrences of a name (only END ends the translation); r14 also decides that RSConcept::Translate is applied on every path of Schema::Translate and to every constituent in Schema::TranslateAll.',
+ 'C09': ' r10 RENUMBER-FAITHFUL (shared C13 r8), r11 LIST-GROUPED: CstList::MoveBefore and Insert interpreted on every grouped list of up to four constituents - an accepted move or an insertion leaves a grouped permutation, a refusal leaves the list as it was; by induction every history of moves and insertions keeps the grouping.',
+ 'C11': ' r4 evaluates the decision table of ResetDependants under both values of every query about the dependant that is outside its vocabulary (free runtime conditions).',
+ 'C12': ' r13 COPIES-ANALYSED (shared C07 r2): an insertion that uses the deferred loader reaches UpdateState on every path.',
+ 'C13': ' r9 MAXPART-EVALUATED: GetAllCstMaxPart with CheckCst interpreted on every schema of up to four constituents in every list order and every selection against the least fixpoint.',
+ 'C17': ' r17 ERASE-ALIGNED: RefsManager::EraseIn interpreted on every layout of up to three references and every range: a refusal changes nothing, an accepted erasure removes exactly the references inside and shifts those behind.',
+ 'C19': ' r11 HASH-ANNOUNCED: the stored hashes of a handle are refreshed only by a function that read the previous core hash and reaches OnCoreChange afterwards; no direct assignment outside the handle.',
+ 'C20': ' r6 evaluates TrimWhitespace with plain char signed, as on the platforms the library is built for.',
+}
+for _k, _t in _ROUND4.items():
+    if _k in _AS_BUILT:
+        _AS_BUILT[_k] = (_AS_BUILT[_k][0], _AS_BUILT[_k][1] + _t, _AS_BUILT[_k][2])
+    else:
+        CHECKS[_k]['text'] += _t
+_AS_BUILT['C09'] = (_AS_BUILT['C09'][0], _AS_BUILT['C09'][1], _AS_BUILT['C09'][2].replace('Does not decide list order after arbitrary MoveBefore sequences beyond what the priority table implies.', 'List order under MoveBefore / Insert is decided by r11 on lists of up to four constituents (the functions look at most at two neighbours).'))
 for _k, (_tech, _text, _note) in _AS_BUILT.items():
     CHECKS[_k]['technique'] += _tech
     CHECKS[_k]['text'] += _text
